@@ -26,7 +26,7 @@ REQUIRE = {'chain_dfxp': 50, 'chain_sami': 50, 'chain_dfxp>sami': 30, 'chain_sam
            'reader_captions_balance_checked': 200, 'chars_compared': 5000, 'spans_across_break': 50,
            'adjacent_spans': 50, 'empty_spans': 20, 'italic_chars': 500, 'bold_chars': 200, 'underline_chars': 200, 'positioned_captions': 30, 'suite_captions_balance_checked': 300,
            'rollup_streams_with_italics_read': 20, 'dfxp_documents_round_tripped': 20,
-           'webvtt_sets_with_class_styled_spans': 20}
+           'webvtt_sets_with_class_styled_spans': 20, 'dfxp_documents_with_attribute_spellings': 20}
 
 KINDS = [{'italics': True}, {'italics': True}, {'bold': True}, {'underline': True}, {'italics': True, 'bold': True},
          {'italics': True, 'text-align': 'right'}, {'italics': True, 'color': 'red', 'font-family': 'Arial'}]
@@ -34,10 +34,10 @@ KINDS = [{'italics': True}, {'italics': True}, {'bold': True}, {'underline': Tru
 
 # style classes a span may reference instead of carrying the flag itself (WebVTT chain): the writer
 # resolves them through CaptionSet.get_style, recursively, the span's own entries winning
-CLASS_STYLES = {'ki': {'italics': True}, 'kb': {'bold': True}, 'kiu': {'classes': ['ki'], 'class': 'ki', 'underline': True},
-                'kplain': {'color': 'red'}, 'kall': {'classes': ['kiu', 'kb'], 'class': 'kiu'}}
-CLASS_KINDS = [{'class': 'ki'}, {'classes': ['ki'], 'class': 'ki'}, {'classes': ['ki', 'kb'], 'class': 'ki'}, {'class': 'kiu'},
-               {'class': 'kplain'}, {'class': 'kall'}, {'class': 'ki', 'italics': False}, {'class': 'kb', 'underline': True},
+CLASS_STYLES = {'ki': {'italics': True}, 'Strong': {'bold': True}, 'titleRef': {'classes': ['ki'], 'class': 'ki', 'underline': True},
+                'kplain': {'color': 'red'}, 'kall': {'classes': ['titleRef', 'Strong'], 'class': 'titleRef'}}
+CLASS_KINDS = [{'class': 'ki'}, {'classes': ['ki'], 'class': 'ki'}, {'classes': ['ki', 'Strong'], 'class': 'ki'}, {'class': 'titleRef'},
+               {'class': 'kplain'}, {'class': 'kall'}, {'class': 'ki', 'italics': False}, {'class': 'Strong', 'underline': True},
                {'class': 'nosuch'}]
 
 
@@ -51,6 +51,48 @@ def resolve_flags(style, styles, depth=0):
             res.update(resolve_flags(styles.get(r, {}), styles, depth + 1))
     res.update({k: v for k, v in style.items() if k in ('italics', 'bold', 'underline')})
     return res
+
+
+# DFXP attribute spellings and the flag (i, b, u) each sets on the characters of its span
+DFXP_ATTRS = [('tts:fontStyle="italic"', 0), ('tts:fontWeight="bold"', 1), ('tts:textDecoration="underline"', 2),
+              ('tts:textDecoration="underline lineThrough"', 2), ('tts:textDecoration="overline underline"', 2),
+              ('tts:textDecoration="noUnderline"', None), ('tts:textDecoration="noUnderline lineThrough"', None),
+              ('tts:textDecoration="none"', None), ('tts:fontStyle="normal"', None), ('tts:fontWeight="normal"', None),
+              ('tts:fontStyle="italic" tts:fontWeight="bold"', (0, 1)), ('tts:color="red"', None)]
+
+
+def flag_lines(rng, tag, fmt):
+    """Lines of plain words with flat spans, each span carrying one DFXP attribute spelling."""
+    lines = []
+    for k in range(rng.randrange(1, 4)):
+        segs = [['t', f'{tag}.{k} ']]
+        for _ in range(rng.randrange(1, 4)):
+            if rng.random() < 0.6:
+                attr, flag = rng.choice(DFXP_ATTRS)
+                segs.append(['o', 'attr', attr, flag])
+                segs.append(['t', T.word(rng, p_meta=0, p_uni=0.1)])
+                segs.append(['c', 'attr'])
+                segs.append(['t', ' '])
+            else:
+                segs.append(['t', T.word(rng, p_meta=0, p_uni=0.1) + ' '])
+        lines.append(segs)
+    return lines
+
+
+def _flags_of_segs(lines):
+    out = []
+    for segs in lines:
+        cur = [False, False, False]
+        for seg in segs:
+            if seg[0] == 'o':
+                f = seg[3]
+                for i in ((f,) if isinstance(f, int) else (f or ())):
+                    cur[i] = True
+            elif seg[0] == 'c':
+                cur = [False, False, False]
+            elif seg[0] == 't':
+                out.extend((ch, tuple(cur)) for ch in seg[1] if not ch.isspace())
+    return out
 
 
 def gen_caption(rng, tag):
@@ -115,6 +157,11 @@ def cases(ctx):
             d = docs.gen_dfxp_styled(rng, f'Y{ctx.shard}.{i}')
             yield {'kind': 'doc-chain', 'doc': d['doc']}
             continue
+        if i % 6 == 2 and rng.random() < 0.4:
+            d = docs.gen_dfxp(rng, f'Y{ctx.shard}.{i}', text=flag_lines, nlang=1)
+            if d['expected'][0]['cues']:
+                yield {'kind': 'doc-flags', 'doc': d['doc'], 'cues': [c['segs'] for c in d['expected'][0]['cues']]}
+                continue
         if i % 6 == 5 and rng.random() < 0.5:
             from vf.gen import sccprog
             prog = sccprog.gen_popon(rng, italic_bias=rng.choice([0.0, 0.6, 0.9]))
@@ -165,7 +212,7 @@ def cases(ctx):
 
 
 def nontrivial(case):
-    return case['kind'] in ('reader', 'suite', 'doc-chain') or bool(case['features'])
+    return case['kind'] in ('reader', 'suite', 'doc-chain', 'doc-flags') or bool(case['features'])
 
 
 def flags_of_nodes(nodes_dump, styles=None):
@@ -234,6 +281,26 @@ def check(case, ctx):
                               'expected': [_show([(c, (f[0],)) for c, f in x]) for x in caps][:4],
                               'got': [_show([(c, (f[0],)) for c, f in x]) for x in got][:4]})
         return fails[:3]
+    if case['kind'] == 'doc-flags':
+        # a DFXP document whose spans spell the three attributes in every legal way: what the reader marks
+        # italic / bold / underlined must be what the document says, observed on the WebVTT output
+        try:
+            cs = pycaption.DFXPReader().read(case['doc'])
+            out = pycaption.WebVTTWriter().write(cs)
+        except Exception as e:
+            return [{'what': 'DFXP -> WebVTT raised', 'error': repr(e)[:300]}]
+        ctx.count('dfxp_documents_with_attribute_spellings')
+        cues = parsers.parse_webvtt(out)
+        if len(cues) != len(case['cues']):
+            return [{'what': 'number of WebVTT cues differs', 'expected': len(case['cues']), 'got': len(cues)}]
+        for cue, segs in zip(cues, case['cues']):
+            want = _flags_of_segs(segs)
+            got = _vtt_flags(cue, fails)
+            ctx.count('chars_compared', len(want))
+            if got != want:
+                fails.append({'what': 'italic/bold/underline of a DFXP document differ in the WebVTT output',
+                              'cue': cue['raw'], 'expected': _show(want), 'got': _show(got)})
+        return fails[:3]
     if case['kind'] == 'reader':
         if case.get('rollup'):
             ctx.count('rollup_streams_with_italics_read')
@@ -272,26 +339,7 @@ def check(case, ctx):
         if len(cues) != len(want):
             return [{'what': 'number of WebVTT cues differs', 'got': len(cues)}]
         for k, (cue, w) in enumerate(zip(cues, want)):
-            got = []
-            stack = []
-            for raw in cue['raw']:
-                for tok in re.split(r'(<[^>]*>)', raw):
-                    if tok.startswith('<') and tok.endswith('>'):
-                        name = tok[1:-1]
-                        if name in ('i', 'b', 'u'):
-                            stack.append(name)
-                        elif name in ('/i', '/b', '/u'):
-                            if not stack or stack[-1] != name[1:]:
-                                fails.append({'what': 'WebVTT tags not properly nested', 'cue': cue['raw']})
-                                stack = [x for x in stack if x != name[1:]]
-                            else:
-                                stack.pop()
-                    else:
-                        text, _ = parsers.vtt_cue_text(tok)
-                        fl = ('i' in stack, 'b' in stack, 'u' in stack)
-                        got.extend((ch, fl) for ch in text if not ch.isspace())
-            if stack:
-                fails.append({'what': 'WebVTT tag left open at the end of the cue', 'cue': cue['raw']})
+            got = _vtt_flags(cue, fails)
             ctx.count('chars_compared', len(w))
             if got != w:
                 fails.append({'what': 'italic/bold/underline flags differ in the WebVTT output', 'cue': cue['raw'],
@@ -336,6 +384,30 @@ def check(case, ctx):
                               'expected': _show(proj(w)), 'got': _show(proj(got)),
                               'nodes_in': case['set']['langs'][0]['captions'][k]['nodes']})
     return fails[:3]
+
+
+def _vtt_flags(cue, fails):
+    got = []
+    stack = []
+    for raw in cue['raw']:
+        for tok in re.split(r'(<[^>]*>)', raw):
+            if tok.startswith('<') and tok.endswith('>'):
+                name = tok[1:-1]
+                if name in ('i', 'b', 'u'):
+                    stack.append(name)
+                elif name in ('/i', '/b', '/u'):
+                    if not stack or stack[-1] != name[1:]:
+                        fails.append({'what': 'WebVTT tags not properly nested', 'cue': cue['raw']})
+                        stack = [x for x in stack if x != name[1:]]
+                    else:
+                        stack.pop()
+            else:
+                text, _ = parsers.vtt_cue_text(tok)
+                fl = ('i' in stack, 'b' in stack, 'u' in stack)
+                got.extend((ch, fl) for ch in text if not ch.isspace())
+    if stack:
+        fails.append({'what': 'WebVTT tag left open at the end of the cue', 'cue': cue['raw']})
+    return got
 
 
 def _show(seq):
